@@ -359,6 +359,17 @@ fn wildcard_worlds() -> Vec<(RefMap, Tags)> {
         }
         // subject whose tag is not a Ref
         worlds.push((m.clone(), mk_tags(&[("a", V::str("r1"))])));
+        // the same world with a resolver that answers dangling ids with an EMPTY record, and one
+        // that answers them with a record lacking the tag
+        for filler in [vec![], mk_tags(&[("x", V::Marker)])] {
+            let mut m2 = m.clone();
+            for id in ["r1", "r2", "r3", "zz", "nope"] {
+                m2.entry(id.to_string()).or_insert_with(|| filler.clone());
+            }
+            for start in [Some("r1"), Some("zz")] {
+                worlds.push((m2.clone(), rec(start)));
+            }
+        }
     }
     worlds
 }
@@ -421,7 +432,7 @@ fn check_grid(rows: &[Tags], f: &F) -> Verdict {
 
 pub fn run(tier: Tier) -> i32 {
     let mut run = Run::new("C07", tier, "model_checking");
-    run.rule = "programs = filter trees built from the public node structs: every single leaf (has/missing over 8 paths of 1-4 segments; 6 operators x 18 literals of every literal kind x 4 paths) on 240 records (tag a over 40 values of every kind incl. Null, lists, nested dicts; b, n present/absent); every and/or/parens shape with <= 3 leaves over a kind-distinct leaf core and 7 shapes with 4 leaves (and-of-ors, or-of-ands, mixed precedence, nested groups) over a 7/20-leaf core; `*==` against a caller-supplied resolver over 48 ref worlds (chains 0-3, 1- and 2-cycles, dangling); Grid::filter / filter_all on every grid of <= 3 rows over 8 records. Oracle: reference evaluator written from the statement (unit-mismatched ordering = unconstrained, skipped). states = filters, transitions = (filter, record) evaluations = traces validated; non-trivial = filter that is true on some record and false on another".into();
+    run.rule = "programs = filter trees built from the public node structs: every single leaf (has/missing over 8 paths of 1-4 segments; 6 operators x 18 literals of every literal kind x 4 paths) on 240 records (tag a over 40 values of every kind incl. Null, lists, nested dicts; b, n present/absent); every and/or/parens shape with <= 3 leaves over a kind-distinct leaf core and 7 shapes with 4 leaves (and-of-ors, or-of-ands, mixed precedence, nested groups) over a 7/20-leaf core; == / != of nine unit-carrying literals against the same magnitude under every database unit (bare and in a list); `*==` against a caller-supplied resolver over 80 ref worlds (chains 0-3, 1- and 2-cycles, dangling ids answered with nothing / an empty record / a record without the tag); Grid::filter / filter_all on every grid of <= 3 rows over 8 records. Oracle: reference evaluator written from the statement (unit-mismatched ordering = unconstrained, skipped). states = filters, transitions = (filter, record) evaluations = traces validated; non-trivial = filter that is true on some record and false on another".into();
     run.assume("value equality of the filter language: same kind and value, Ref by id, DateTime by instant");
     run.assume("`^symbol` is covered by C13; relationship terms are only exercised for termination (C09)");
     crate::engine::quiet_panics();
@@ -500,6 +511,27 @@ pub fn run(tier: Tier) -> i32 {
         }
     });
     run.absorb(l);
+
+    // unit sweep: `a == 5u` / `a != 5u` hold exactly for the same unit (under any of its names), with
+    // the record value 5 under EVERY unit of the database (ordering across units is left open)
+    {
+        let db = crate::model::units_ref::db();
+        let lits = ["kW", "$", "%RH", "Hz", "J", "K", "kWh", "m", "VA"];
+        let l = par_for(db.units.len(), |ui, local| {
+            let u = db.units[ui].symbol();
+            let rec = mk_tags(&[("a", V::numu(5.0, u)), ("l", V::List(vec![V::numu(4.0, u), V::numu(5.0, u)]))]);
+            let d = lib_dict(&rec);
+            for lu in lits {
+                for (path, op) in [("a", Op::Eq), ("a", Op::Ne), ("l", Op::Eq), ("l", Op::Ne)] {
+                    let f = F::Cmp(p(path), op, V::numu(5.0, lu));
+                    local.count("unit-sweep");
+                    run_filter(&f, std::slice::from_ref(&rec), std::slice::from_ref(&d), local);
+                }
+            }
+        });
+        run.absorb(l);
+        run.require(run.counter("unit-sweep") > 10_000, "unit sweep missing");
+    }
 
     // wildcard equality
     let nw = wildcard_worlds().len();
